@@ -29,9 +29,11 @@ ASSUMPTIONS = [
 TRUSTED = ['model coq/C01/Model.v is hand-written from thermosteam/{_stream,_multi_stream,indexer,_phase}.py and '
            'base/sparse.py (SparseVector.mix_from); tie = correspondence check',
            'SparseVector/SparseArray item access, arithmetic and sum are modelled by their dense meaning (property C09)',
-           'aliases: flow proxies of single-phase streams and per-phase sub-streams multistream[p] are modelled as handles on shared '
-           'cells (Model.astep); operations that would replace the indexer of a stream whose data is shared (phases setters) are '
-           'outside the modelled fragment: such a history is cut before that operation; linked MultiStreams are not modelled']
+           'aliases: flow proxies of single-phase streams, per-phase sub-streams multistream[p] and linked MultiStreams are '
+           'modelled as handles on shared cells (Model.astep); an operation that replaces a stream\'s indexer (phases setters) '
+           'moves that stream to new data and leaves the other handles on the old data, as the source does; a history is cut '
+           'when a linked MultiStream is out of step with its rows, and before a mix of the two classes listed as findings '
+           '(multi-phase fallback with an inlet sharing the receiver\'s data; a multi-phase receiver with its linked partner as inlet)']
 
 NAMES = ['A_', 'B_', 'C_', 'D_', 'E_', 'F_']
 PKGS = [['A_', 'B_', 'C_', 'D_', 'E_', 'F_'], ['C_', 'A_', 'B_'], ['F_', 'E_', 'D_', 'C_', 'B_', 'A_'], ['B_', 'D_'],
@@ -921,6 +923,9 @@ _ALL_WITNESSES = [
     {'key': 'C01:copy_flow:recv=M:src=S:exclude-with-other-phase-selector:remove=1',
      'case': {'streams': [_m(1, ['g', 'l'], [[0, 0, 0], [0, 0, 0]]), _s(1, 'l', [4., 1., 2.])],
               'ops': [['copy_flow', 0, 1, ['A_'], True, True, 'g']]}},
+    {'key': 'C01:mix:fallback-with-inlet-sharing-receiver-data',
+     'case': {'streams': [_s(1, 'l', [1., 2., 0]), _s(1, 'g', [0, 4., 4.])], 'handles': [['proxy', 0, 'l']],
+              'ops': [['mix', 0, [2, 1], True, 2]]}},
     {'key': 'C01:copy_flow:onto-itself:remove=1',
      'case': {'streams': [_s(1, 'l', [4., 1., 2.])], 'ops': [['copy_flow', 0, 0, None, True, False, None]]}},
     {'key': 'C01:mix:recv=M:only-inlet-is-own-sub-stream:eb=1',
